@@ -6,6 +6,7 @@ From NV Require Import Lib.Res Gen.Fat Fat.Spec.
 From NV Require Import FatTable.Model FatTable.ProofsBase FatTable.ProofsSet32 FatTable.Proofs.
 From NV Require Import FatAlloc.Model FatAlloc.ProofsBase FatAlloc.ProofsGrow FatAlloc.ProofsOps FatAlloc.ProofsWrite FatAlloc.ProofsFrame FatAlloc.Proofs.
 From NV Require Import FatRead.Model FatData.Model FatData.Spec FatData.ProofsBase FatData.Proofs.
+From NV Require FatDir.Model FatDir.ProofsBase FatDir.ProofsView FatDir.ProofsClean FatDir.ProofsOps FatDir.ProofsAppend FatDir.ProofsMain.
 Import ListNotations.
 Open Scope N_scope.
 
@@ -87,6 +88,18 @@ Theorem C04_other_clusters_untouched :
   forall bits cs : N, 0 < cs -> forall (s : dstate) (o : op), ProofsTrunc.Inv (PB bits) cs s -> let s' := fst (step (PB bits) cs true s o) in length (dat s') = length (dat s) /\ length (tbl (fs s')) = length (tbl (fs s)) /\ (forall c : N, 2 <= c -> ~ In c (map (fs s')) -> getc (dat s') c = getc (dat s) c) /\ (forall c : N, ~ In c (map (fs s)) -> ~ In c (map (fs s')) -> get (tbl (fs s')) c = get (tbl (fs s)) c).
 Proof. exact FatData.Proofs.FD_other_clusters_untouched. Qed.
 Print Assumptions C04_other_clusters_untouched.
+
+(* stage E (directory entries): storing an existing name (any case variant or its alias) rewrites exactly that one record, keeping the stored name fields and attr2 *)
+Theorem C04_dir_update_in_place :
+  forall (upper : list N -> list N) (spc : N) (d : Model.dir) (name : list N) (entry : Model.rec) (g : Model.group) (x : list N * list N * Model.rec), ProofsClean.wf_recs (Model.d_recs d) -> ProofsView.cap_ok d -> ProofsOps.entry_ok entry -> Model.find upper (upper name) (upper name) (Model.groups (Model.d_recs d)) = Ok (Some (g, x)) -> let old := Model.g_short g in let new := Model.short_record entry (Model.fld de_filename old) (Model.fld de_ext old) (Model.byte_at de_attr2 old) in exists (G1 G2 : list Model.group) (A B : list Model.rec), Model.setitem upper spc d name entry = ({| Model.d_recs := Model.set_nth (N.to_nat (Model.g_off g)) new (Model.d_recs d); Model.d_cap := Model.d_cap d |}, None) /\ Model.d_recs d = A ++ old :: B /\ Model.set_nth (N.to_nat (Model.g_off g)) new (Model.d_recs d) = A ++ new :: B /\ Model.g_off g = N.of_nat (length A) /\ Model.fld de_filename new = Model.fld de_filename old /\ Model.fld de_ext new = Model.fld de_ext old /\ Model.byte_at de_attr2 new = Model.byte_at de_attr2 old /\ Model.attr_of new = Model.attr_of entry /\ skipn 13 new = skipn 13 entry /\ length new = 32%nat /\ Model.groups (Model.d_recs d) = G1 ++ g :: G2 /\ Model.groups (A ++ new :: B) = G1 ++ (Model.g_off g, Model.g_lfns g, new) :: G2 /\ Model.split_g (Model.g_off g, Model.g_lfns g, new) = Ok (fst x, new) /\ ProofsView.view (A ++ new :: B) = List.map Model.split_g G1 ++ Ok (fst x, new) :: List.map Model.split_g G2.
+Proof. exact FatDir.ProofsOps.setitem_existing_updates_in_place. Qed.
+Print Assumptions C04_dir_update_in_place.
+
+(* stage E: deleting removes exactly that group from the listing; every other group is byte-identical and every other key resolves as before *)
+Theorem C04_dir_delitem_spec :
+  forall (upper : list N -> list N) (spc : N) (d : Model.dir) (name : list N), ProofsClean.wf_recs (Model.d_recs d) -> ProofsView.cap_ok d -> match Model.find upper (upper name) (upper name) (Model.groups (Model.d_recs d)) with | Ok (Some (g, x)) => exists (d' : Model.dir) (G1 G2 : list Model.group) (pre seg post : list Model.rec), Model.delitem upper spc d name = (d', None) /\ Model.d_cap d' = Model.d_cap d /\ Model.groups (Model.d_recs d) = G1 ++ g :: G2 /\ Model.groups (Model.d_recs d') = G1 ++ G2 /\ Model.d_recs d = pre ++ seg ++ post /\ Model.d_recs d' = pre ++ (List.map Model.mark_lfn (Model.g_lfns g) ++ [Model.mark_short (Model.g_short g)]) ++ post /\ length seg = S (length (Model.g_lfns g)) /\ Model.g_off g + 1 = N.of_nat (length pre + length seg) /\ (forall k : list N, ProofsView.hit upper (upper k) (upper k) x = false -> Model.getitem upper d' k = Model.getitem upper d k) /\ (forall names : list (list N), Model.listing d = Ok names -> Model.listing d' = Ok (firstn (length G1) names ++ skipn (S (length G1)) names)) | Ok None => Model.delitem upper spc d name = (d, Some KeyError) | Err e => Model.delitem upper spc d name = (d, Some e) end.
+Proof. exact FatDir.ProofsOps.delitem_spec. Qed.
+Print Assumptions C04_dir_delitem_spec.
 
 (* ANY sequence of file operations on any family of files sharing one table: every file stays well-formed, chains stay disjoint, foreign entries (directories, reserved) keep their value *)
 Theorem C04_history_partial :
